@@ -589,6 +589,13 @@ def effect(g, op, attrs=None):
         sub = 'lshift' if kind == 'list_lshift' else 'rshift'
         return _compose(g, [(sub, t, raw) for t in g.clist(_ref(own))], attrs, 'each-receiver')
 
+    if kind in ('dep_lshift', 'dep_rshift'):
+        # t.predecessors << x, t.successors >> x, ...: the operator applied to every task of a dependency list
+        t, which, raw = op[1], op[2], op[3]
+        sub = 'lshift' if kind == 'dep_lshift' else 'rshift'
+        receivers = list(g.preds[t] if which == 'preds' else g.succs[t])
+        return _compose(g, [(sub, r, raw) for r in receivers], attrs, 'each-receiver')
+
     if kind == 'bulk_parent':
         own, ids, p = op[1], op[2], op[3]
         sel = [x for x in g.clist(_ref(own)) if g.ids[x] in ids]
